@@ -142,7 +142,9 @@ def run(ctx):
                 channel, cores = ['positional', 'list'][bi % 2], [1, 1, 2, 1][bi % 4]
             progress = bi % 2 == 0
             out = os.path.join(tmp, f'out{bi}')
-            args = ['-d', dbdir, 'query', '-f', fmt, '-o', out, '-c', str(cores)] + (['--progress'] if progress else ['--no-progress'])
+            to_stdout = bi % 5 == 3                      # no -o: the results are written to standard output
+            args = ['-d', dbdir, 'query', '-f', fmt] + ([] if to_stdout else ['-o', out]) + ([] if bi % 7 == 5 else ['-c', str(cores)]) \
+                + (['--progress'] if progress else ['--no-progress'])
             if channel == 'positional':
                 args += [files[i][1] for i in batch]
                 labels = [dict(kind='path', v=cps(files[i][1])) for i in batch]
@@ -173,14 +175,14 @@ def run(ctx):
                 args += ['-s', sf]
                 labels = [dict(kind='id', v=cps(sig_ids[i])) for i in batch]
             jobs.append((args, dict(cwd=tmp)))
-            metas.append(dict(batch=batch, channel=channel, fmt=fmt, cores=cores, progress=progress, out=out, labels=labels))
+            metas.append(dict(batch=batch, channel=channel, fmt=fmt, cores=cores, progress=progress, out=out, labels=labels, to_stdout=to_stdout))
         results = cli.run_many(jobs)
         recs = []
         for m, (rc, so, se) in zip(metas, results):
             rec = dict(how='cli', channel=m['channel'], fmt=m['fmt'], cores=m['cores'], progress=m['progress'], rc=rc, stderr=se[-200:] if rc else '',
                        db=dbt, N=10, batch=[dict(label=l, contigs=[blist(c.encode()) for c in pool[i]['contigs']]) for l, i in zip(m['labels'], m['batch'])], rows=[])
-            if rc == 0 and os.path.exists(m['out']):
-                text = open(m['out'], newline='', encoding='utf-8').read()
+            if rc == 0 and (m['to_stdout'] or os.path.exists(m['out'])):
+                text = so if m['to_stdout'] else open(m['out'], newline='', encoding='utf-8').read()
                 try:
                     rec['rows'] = rows_from_csv(text) if m['fmt'] == 'csv' else rows_from_json(text) if m['fmt'] == 'json' else rows_from_archive(text, w)
                 except Exception as e:
